@@ -538,7 +538,11 @@ func (q *checker) bcheckAssignment(lhs *a.Expr, op t.ID, rhs *a.Expr) error {
 			// No-op.
 
 		} else if lhs.MType().IsNumType() {
-			q.facts.appendBinaryOpFact(t.IDXBinaryEqEq, lhs, rhs)
+			// After "x = x + 1", "x == x + 1" is not a fact: the right hand
+			// side was evaluated with the old value of x.
+			if !rhs.Mentions(lhs) {
+				q.facts.appendBinaryOpFact(t.IDXBinaryEqEq, lhs, rhs)
+			}
 
 			if rhs.Operator() == a.ExprOperatorCall {
 				if lTyp := rhs.LHS().AsExpr().MType(); lTyp.IsFuncType() && lTyp.Receiver().IsNumType() {
@@ -590,6 +594,14 @@ func (q *checker) bcheckAssignment(lhs *a.Expr, op t.ID, rhs *a.Expr) error {
 	} else {
 		// Update any facts involving lhs.
 		if err := q.facts.update(func(x *a.Expr) (*a.Expr, error) {
+			if rhs.Mentions(lhs) {
+				// For "x -= x" or "x += (x & 1)", the amount added is not
+				// what rhs evaluates to afterwards: no fact can be rewritten.
+				if x.Mentions(lhs) {
+					return nil, nil
+				}
+				return x, nil
+			}
 			xOp, xLHS, xRHS := parseBinaryOp(x)
 			if xOp == 0 || !xLHS.Eq(lhs) {
 				if x.Mentions(lhs) {
